@@ -354,8 +354,13 @@ def run(pid, tier):
                            invariants=["NoOverlap", "RoundTrip", "UndeclaredZero", "NestedTransparent", "Emit"])
         d = os.path.join(wd, "mc")
         os.makedirs(d)
-        r = lib.tlc(d, "WireLayoutMC", cfg, workers=8, timeout=1500, heap="8g")
-        if r.error:
+        r = lib.tlc(d, "WireLayoutMC", cfg, workers=12, timeout=1500 if q else 2400, heap="8g")
+        mc_complete = True
+        if r.error == "timeout":
+            # bounded, not exhaustive: the layouts enumerated so far are used, the evidence says so
+            mc_complete = False
+            lib.log(f"MC: timeout after {r.distinct} distinct states (bounded, not exhaustive)")
+        elif r.error:
             raise lib.ToolError(f"MC: {r.error}")
         states += r.distinct
         transitions += r.generated
@@ -472,7 +477,7 @@ def run(pid, tier):
                    rule="one case = one pack / pack_to_slice / unpack_from_slice operation on a value of a type generated from a "
                         "TLC layout; distinct by (operation, layout, outcome)",
                    samples=samples or [{"note": "none"}], model_checking_runs=mc_runs,
-                   exhaustive=not r.violated, conformance_divergences=verdict.divergences,
+                   exhaustive=(not r.violated) and mc_complete, conformance_divergences=verdict.divergences,
                    known_findings_matched=verdict.known)
         lib.write_evidence(pid, tier, "model_checking", cov, [
             "Reference semantics = positional bit layout (WireLayout.tla Pack/Unpack) and Rust's rule for implicit discriminants (EnumDecode).",
